@@ -51,6 +51,18 @@ def value_goals(got, ref, label="value"):
     if isinstance(got, (B,)) or isinstance(ref, (B,)) or isinstance(got, bool) or isinstance(ref, bool):
         g = got.f if isinstance(got, B) else ("const", bool(got))
         r = ref.f if isinstance(ref, B) else ("const", bool(ref))
+        if g == r:
+            return [(label + ".iff", TRUE)]
+        # an equivalence between conjunctions is posed conjunct by conjunct in both directions (smaller queries)
+        gc = g[1] if g[0] == "and" else (g,)
+        rc = r[1] if r[0] == "and" else (r,)
+        if len(gc) > 1 or len(rc) > 1:
+            goals = []
+            for i, c in enumerate(rc):
+                goals.append((f"{label}.fwd{i + 1}", S.f_imp(g, c)))
+            for i, c in enumerate(gc):
+                goals.append((f"{label}.bwd{i + 1}", S.f_imp(r, c)))
+            return goals
         return [(label + ".iff", f_iff(g, r))]
     if isinstance(got, PiMul):
         got = got.ang()
@@ -146,6 +158,10 @@ class VariantJob:
             res["obligations"].append(dict(id=self.base_id + "/subset", kind="subset", status="unknown", by="engine",
                                            t=0, note=f"left the verifiable subset: {e}"))
             worst = _worse(worst, "unknown")
+        if res["cases"] and len(res.get("vacuous_cases", [])) == res["cases"]:
+            res["obligations"].append(dict(id=self.base_id + "/vacuity", kind="vacuity", status="error", by="z3", t=0,
+                                           note="every case of the contract has an unsatisfiable precondition"))
+            worst = "error"
         res["status"] = worst
         res["t"] = round(time.time() - t0, 3)
         res["stats"] = dict(PR.STATS)
@@ -184,9 +200,10 @@ class VariantJob:
         if not pts:
             st, _ = PR.satisfiable(ctx, list(ctx.pre), 10000)
             if st == "unsat":
-                res["obligations"].append(dict(id=f"{self.base_id}{suffix}/vacuity", kind="vacuity", status="error",
-                                               by="z3", t=0, note="precondition unsatisfiable"))
-                return "error"
+                # this sign case admits no representable operand/result at all (e.g. negative factor with tau output)
+                res.setdefault("vacuous_cases", []).append(label)
+                return "proved"
+            res.setdefault("unsampled_cases", []).append(label)
         for env in pts:
             res["refuter_points"] += 1
             bad = self.refute_at(ctx, env, got, ref, scalar_result, res)
@@ -216,7 +233,9 @@ class VariantJob:
         # ---- value obligations, chained
         lemmas = []
         for nm, g in goals:
-            r = PR.prove(ctx, g, extra=lemmas)
+            r = PR.radical_tactic(ctx, g, extra=lemmas, timeout_ms=3000)
+            if r is None:
+                r = PR.prove(ctx, g, extra=lemmas)
             o = dict(id=f"{self.base_id}{suffix}/{nm}", kind="value", status=r["status"], by=r["by"], t=round(r["t"], 4))
             if r["status"] == "refuted":
                 cx = self.validate_model(ctx, r.get("model"), got, ref, scalar_result)
